@@ -267,3 +267,9 @@ def get_recent_block_heights(block_height: int) -> List[int]:
     oldness = list(range(10)) + [pow(x, 2) for x in range(4, 64)]
     heights = [x for x in [block_height - o for o in oldness] if x >= 0]
     return heights
+
+
+# verification hooks: wrap the periodic step only when SKEPTICOIN_VERIF=1 and a trace file is named (see skepticoin/_verif.py)
+from skepticoin import _verif  # noqa: E402
+if _verif.ENABLED:
+    ChainManager.step = _verif.wrap_chain_manager_step(ChainManager.step)  # type: ignore
